@@ -4,7 +4,7 @@ use process_wrap::tokio::{TokioChildWrapper, TokioCommandWrap, TokioCommandWrapp
 use tokio::{process::{Child, Command as TokioCommand}, sync::Notify, time::Instant};
 use watchexec::Watchexec;
 use watchexec_cli::verif;
-use watchexec_events::{filekind::*, Event, FileType, Priority, Source, Tag};
+use watchexec_events::{filekind::*, Event, FileType, Keyboard, Priority, Source, Tag};
 
 #[derive(Debug, Clone, Copy, PartialEq)]
 enum Beh { ExitsAfter(u64), ExitsAfterSignal(u64), Ignores, SpawnFails }
@@ -121,6 +121,9 @@ async fn run_case(flags: Vec<String>, behs: Vec<Beh>, ops: Vec<String>) -> Strin
                 let _ = wx.send_event(Event { tags: vec![Tag::Source(Source::Os), Tag::Signal(watchexec_signals::Signal::from(n))], metadata: Default::default() }, Priority::Urgent).await;
                 settle().await;
                 wx.config.throttle(Duration::ZERO); }
+            // what sources/keyboard.rs sends at end of input on stdin
+            "eof" => { if main_done.load(std::sync::atomic::Ordering::SeqCst) { continue; }
+                let _ = wx.send_event(Event { tags: vec![Tag::Source(Source::Keyboard), Tag::Keyboard(Keyboard::Eof)], metadata: Default::default() }, Priority::Normal).await; }
             "chg" => { if main_done.load(std::sync::atomic::Ordering::SeqCst) { continue; } nchg += 1; sh.log(format!("chg{nchg}")); wx.send_event(change(nchg), Priority::Normal).await.unwrap(); }
             "a" => { settle().await; tokio::time::sleep(Duration::from_millis(f[1].parse().unwrap())).await; settle().await; }
             "y" => settle().await,
